@@ -32,9 +32,18 @@ def main():
     prop = a.prop.upper()
     wt = Path(a.worktree or f"/tmp/seed-{prop}")
     sid = a.id or prop
-    patch = (wt / "seed_patch.diff").read_text()
-    demo = (wt / "seed_demo.py").read_text()
-    meta = json.loads((wt / "seed_meta.json").read_text()) if (wt / "seed_meta.json").exists() else {}
+    stored = VERIF / "seeded" / sid
+    if (wt / "seed_patch.diff").exists():
+        patch = (wt / "seed_patch.diff").read_text()
+        demo = (wt / "seed_demo.py").read_text()
+        meta = json.loads((wt / "seed_meta.json").read_text()) if (wt / "seed_meta.json").exists() else {}
+    else:
+        # re-run from the stored copy under /verif/seeded/<id>/
+        patch = (stored / "patch.diff").read_text()
+        demo = (stored / "demo.py").read_text()
+        sm = json.loads((stored / "meta.json").read_text())
+        meta = {k: sm.get(k) for k in ("what_changed", "needs_to_manifest", "files_changed")}
+        wt = Path(sm.get("worktree") or f"/tmp/seed-{prop}")
     root = Path(tempfile.mkdtemp(prefix="seedchk.", dir="/tmp"))   # same file system kind as /repo: two doctests depend on directory listing order
     report = {"property": prop, "agent_meta": meta}
     try:
@@ -87,7 +96,7 @@ def main():
             (out / "demo.py").write_text(demo)
             m = {"id": sid, "property": prop,
                  "what_changed": meta.get("what_changed"), "needs_to_manifest": meta.get("needs_to_manifest"),
-                 "files_changed": meta.get("files_changed"),
+                 "files_changed": meta.get("files_changed"), "worktree": str(wt),
                  "demo": f"written for worktree {wt}; tools/seed_verify.py rewrites that path to its scratch copy",
                  "confirmed_by": "tools/seed_verify.py: demo exit 0 on the unchanged copy, non-zero on the patched copy; 44 baseline tests pass with the patch",
                  "checks_run": results}
